@@ -11,13 +11,13 @@ func zzH_C18_api() {
 	s := zzDrawScenario([]int{zzFOrigin, zzFMethod, zzFHeaders, zzFPNA, zzFSteps})
 	r := s.q.r
 	// sizes beyond the scenarios' byte bounds, where they are cheap to explore:
-	// a method of up to 12 bytes (past the first growth step of a byte buffer),
+	// a method of up to 9 bytes (past the first growth step of a byte buffer),
 	// and an Origin / method of any length between 400 bytes and 1 MiB
 	if zzChoose(2) == 1 {
 		switch s.focus {
 		case zzFMethod:
 			if zzChoose(2) == 1 {
-				v := zzString(12)
+				v := zzString(9)
 				zzAssume(len(v) > 6)
 				r.Header[zzACRM][0] = v
 			} else {
